@@ -1,6 +1,8 @@
 """C15, last clause: user-defined entries are stored and returned with their declared types
-(+ the documented error classes of add_entry / update_for_epoch).  Implementation-only checks
-(no Lean model: the csv module's quoting is not modelled); driven from C15.extra_checks."""
+(+ the documented error classes of add_entry / update_for_epoch).  Implementation-only checks,
+including format strings that the Lean model of the history file (Model/ControllerText.lean) does
+not cover; the modelled formats also run through the main stream of c15.py.  Driven from
+C15.extra_checks."""
 import os
 import shutil
 import tempfile
@@ -8,7 +10,7 @@ import warnings
 
 from common.framework import Failure
 
-ALPHABET = ["a", "B", " ", ",", '"', "'", ";", "é", "0", "-", "\t", "x,y", '""', "epoch", "\n"]
+ALPHABET = ["a", "B", " ", ",", '"', "'", ";", "é", "0", "-", "\t", "x,y", '""', "epoch", "\n", "\r", "\r\n", "\n\r"]
 TMP_ROOT = "/dev/shm" if os.path.isdir("/dev/shm") and os.access("/dev/shm", os.W_OK) else None
 
 
@@ -40,7 +42,9 @@ def gen_values(rng, typ, fmt, n):
 
 def entries_case(rng):
     pool = [("count", int, "{}"), ("pad", int, "{:05d}"), ("note", str, "{}"), ("ratio", float, "{}"),
-            ("ratio_r", float, "{!r}"), ("tag", str, "{:s}"), ("big", int, "{:d}")]
+            ("ratio_r", float, "{!r}"), ("tag", str, "{:s}"), ("big", int, "{:d}"),
+            # formats outside the Lean model (implementation only): blank padding, explicit sign, %g
+            ("right", int, "{:>8d}"), ("signed", int, "{:+d}"), ("g17", float, "{:.17g}"), ("left", int, "{:<6d}")]
     k = rng.randrange(1, 4)
     ents = rng.sample(pool, k)
     n = rng.randrange(1, 6)
